@@ -13,6 +13,9 @@ import symgo
 from symgo import Program, Executor, State, Unsupported, UnwindError, Inconclusive, NeedWidth
 
 REPO = os.environ.get('VERIF_REPO', '/repo')
+WORKROOT = os.environ.get('VERIF_WORK', os.path.join(VERIF, '.work'))
+VERBOSE = bool(os.environ.get('VERIF_VERBOSE'))
+EVID_DIR = os.environ.get('VERIF_EVIDENCE_DIR', os.path.join(VERIF, 'evidence'))
 MOD = 'github.com/scottyw/tetromino'
 GOENV = dict(os.environ, GOFLAGS='-mod=mod', GOPROXY='off', GOSUMDB='off', GOTOOLCHAIN='local', CGO_ENABLED='0')
 
@@ -154,8 +157,15 @@ def run_inits(ex, st):
     return ex.run_inits(st)
 
 
-class EntryResult:
-    pass
+def stub_func(ex, name, handler=None):
+    """replace a repository function by an intrinsic for one entry; the target must exist (a rename must not silently disable the stub)"""
+    if name not in ex.p.funcs:
+        raise Inconclusive('stub target %s is not a function of the program' % name)
+    ex.intrinsics[name] = handler or (lambda ex, st, args, pos: (None, st))
+
+
+def meth(pkg, typ, name, ptr=True):
+    return ('(*%s/gameboy/%s.%s).%s' if ptr else '(%s/gameboy/%s.%s).%s') % (MOD, pkg, typ, name)
 
 
 def model_to_json(ex, model, config):
@@ -223,7 +233,10 @@ def run_entry(world, entry, config=None, timeout_ms=120000, known=None, want_mod
         return cfg[n] & ((1 << 64) - 1), st
     ex2.intrinsics['v:vCfg'] = vcfg
     if setup:
-        setup(ex2)
+        try:
+            setup(ex2)
+        except Inconclusive as e:
+            return {'entry': entry, 'config': cfg, 'obligations': [], 'status': 'inconclusive', 'error': 'setup: %s' % e}
     st = world.st.fork()
     fn = prog.funcs[entry]
     res = {'entry': entry, 'config': cfg, 'obligations': [], 'status': 'ok'}
@@ -237,6 +250,8 @@ def run_entry(world, entry, config=None, timeout_ms=120000, known=None, want_mod
         res['interp_s'] = time.time() - t0
         return res
     res['interp_s'] = time.time() - t0
+    if VERBOSE:
+        log('   [%s %s] interpreted in %.2fs, %d obligations, stats %s' % (entry.rsplit('.', 1)[-1], cfg, res['interp_s'], len(ex2.obligations), {k: v for k, v in ex2.stats.items() if k != 'funcs'}))
     res['instrs'] = ex2.stats['instrs']
     res['funcs'] = sorted(ex2.stats['funcs'])
     res['feas_queries'] = ex2.stats['feas']
@@ -323,6 +338,8 @@ def run_entry(world, entry, config=None, timeout_ms=120000, known=None, want_mod
         o['solve_s'] = round(time.time() - t1, 3)
         tsolve += time.time() - t1
         res['obligations'].append(o)
+        if VERBOSE:
+            log('   [%s %s] %s %s -> %s %.2fs' % (entry.rsplit('.', 1)[-1], cfg, ob.kind, ob.name, o['result'], o['solve_s']))
     res['queries'] = nq
     res['solve_s'] = tsolve
     return res
@@ -371,7 +388,7 @@ class Check:
         self.tier = tier
         self.t0 = time.time()
         self.seed = int(os.environ.get('VERIF_SEED', '0') or 0)
-        self.workdir = os.path.join(VERIF, '.work', prop)
+        self.workdir = os.path.join(WORKROOT, prop)
         shutil.rmtree(self.workdir, ignore_errors=True)
         os.makedirs(self.workdir, exist_ok=True)
         self.known = load_known(prop)
@@ -551,8 +568,8 @@ class Check:
         }
         if error:
             ev['coverage']['error'] = error
-        os.makedirs(os.path.join(VERIF, 'evidence'), exist_ok=True)
-        json.dump(ev, open(os.path.join(VERIF, 'evidence', self.prop + '.json'), 'w'), indent=1)
+        os.makedirs(EVID_DIR, exist_ok=True)
+        json.dump(ev, open(os.path.join(EVID_DIR, self.prop + '.json'), 'w'), indent=1)
 
     def cleanup(self):
         if not os.environ.get('VERIF_KEEP'):
